@@ -46,7 +46,7 @@ fn id_of(k: usize) -> Uuid {
     }
 }
 const SCHEMAS: [&str; 3] = ["person", "group", "person + a class sync may not set"];
-const ATTRS: [&str; 4] = ["name", "name + a changed displayname", "name + a different uuid", "name + another agreement as sync parent"];
+const ATTRS: [&str; 5] = ["name", "name + a changed displayname", "name + a different uuid", "name + another agreement as sync parent", "name, sent WITHOUT an external id next to a second, new entry that has one"];
 const RETAIN: [&str; 5] = ["ignore", "delete other-agreement's entry", "delete the native person", "delete own entry", "retain nothing"];
 
 fn sync_entry(name: &str, u: u128) -> kanidmd_lib::entry::Entry<kanidmd_lib::entry::EntryInit, kanidmd_lib::entry::EntryNew> {
@@ -170,7 +170,11 @@ fn run_case(p: &Prepared, yielded: bool, idk: usize, sch: usize, att: usize, ref
         1 => vec![SCIM_SCHEMA_SYNC_GROUP.to_string()],
         _ => vec![SCIM_SCHEMA_SYNC_PERSON.to_string(), SCIM_SCHEMA_SYNC_ACCOUNT.to_string(), format!("{SCIM_SCHEMA_SYNC_1}system")],
     };
-    let entry = ScimEntry { schemas, id, external_id: Some(format!("cn=case{idk},dc=ext")), meta: None, attrs };
+    let entry = ScimEntry { schemas, id, external_id: if att == 4 { None } else { Some(format!("cn=case{idk},dc=ext")) }, meta: None, attrs };
+    let mut entries = vec![entry];
+    if att == 4 {
+        entries.push(scim_person(Uuid::from_u128(NEWID + 7), "companion", &[]));
+    }
     let retain = match ret {
         0 => ScimSyncRetentionMode::Ignore,
         1 => ScimSyncRetentionMode::Delete(vec![Uuid::from_u128(OTHER)]),
@@ -178,7 +182,7 @@ fn run_case(p: &Prepared, yielded: bool, idk: usize, sch: usize, att: usize, ref
         3 => ScimSyncRetentionMode::Delete(vec![Uuid::from_u128(OWN)]),
         _ => ScimSyncRetentionMode::Retain(vec![]),
     };
-    let req = ScimSyncRequest { from_state: if refresh { ScimSyncState::Refresh } else { ScimSyncState::Active { cookie: vec![2] } }, to_state: ScimSyncState::Active { cookie: vec![3] }, entries: vec![entry], retain };
+    let req = ScimSyncRequest { from_state: if refresh { ScimSyncState::Refresh } else { ScimSyncState::Active { cookie: vec![2] } }, to_state: ScimSyncState::Active { cookie: vec![3] }, entries, retain };
     let res = apply_sync(&p.idm, &p.idents[0], &req, srv::t(100));
     let after = dump(&p.idm);
     let s1 = Uuid::from_u128(S1).to_string();
